@@ -252,6 +252,19 @@ def obligations(r, tier, seed):
                     k.holds(neg(k, res), "objects of different type/shape are unequal")
             obs.append(Ob("C17/mixed/%s-vs-%s" % (ka, kb), mixed, funcs=FUNCS, light=True))
 
+    # ---- internal: the exact formula of BasePose.equals (CONTRACT-DRIFT if another reasonable tolerance formula replaces it)
+    for T in TYPES:
+        def exact(k, T=T):
+            tol = k.pos("tol")
+            x, fx = build(k, "pose:" + T, "x")
+            y, fy = build(k, "pose:" + T, "y")
+            res = x.equals(y, tol)
+            n, nx, _ = norms(k, fx[0], fy[0])
+            spec = ((nx >= tol) & (n < tol * nx)) | ((nx < tol) & (n < tol * tol))
+            k.implies(res, spec, "equals => |x-y| / max(|x|, tol) < tol")
+            k.implies(spec, res, "|x-y| / max(|x|, tol) < tol => equals")
+        obs.append(Ob("C17/internal/BasePose.equals-exact-formula/%s" % T, exact, tier="internal", funcs=FUNCS[:1], light=True))
+
     # canaries
     def canary_loose(k):
         tol = k.pos("tol")
